@@ -183,6 +183,6 @@ var files = ev.NewCheck("C10", "files",
 		return Case{API: gen.API(t, gen.APIOpts{MaxTracks: 5, MaxOps: 6, MaxPayload: mp, MaxDelta: 0x0FFFFFFF}), OnlyOffset: -1}
 	}, run)
 
-func TestPropFiles(t *testing.T) { files.Rapid(t, 40, 400) }
+func TestPropFiles(t *testing.T) { files.Rapid(t, 40, 3000) }
 
 func TestReplay(t *testing.T) { ev.ReplayAll(t) }
